@@ -122,6 +122,30 @@ def h_func_beam(ctx, n, k):
     ctx.claim('argument_untouched', all(bool(ctx.all_eq(a, b)) for a, b in zip(A, A0)))
 
 
+def h_concrete_sign_ties(ctx):
+    """Tensors whose maximal modulus is attained by entries of both signs (exact
+    ties): optima_tt_max / optima_tt report values that are the entries at the
+    reported indices, whichever sweep direction found them (real code, exact
+    integer TT-representations [I, T, I])."""
+    rng = np.random.default_rng(2)
+    ok = True
+    for trial in range(12):
+        n2 = 2 if trial % 2 == 0 else 1
+        T = rng.integers(-3, 4, size=(3, n2, 3)).astype(float)
+        pos = [tuple(p) for p in rng.permutation(np.array(list(np.ndindex(3, n2, 3))))[:2]]
+        T[pos[0]], T[pos[1]] = 5., -5.
+        Y = [np.eye(3).reshape(1, 3, 3), T.copy(), np.eye(3).reshape(3, 3, 1)]
+        for k in (1, 2, 100):
+            i, y = teneva.optima_tt_max(Y, k)
+            ok = ok and float(y) == float(teneva.get(Y, i)) and all(0 <= int(a) < b for a, b in zip(i, (3, n2, 3)))
+            i_min, y_min, i_max, y_max = teneva.optima_tt(Y, k)
+            ok = ok and abs(float(y_min) - float(teneva.get(Y, i_min))) <= 1e-9 and abs(float(y_max) - float(teneva.get(Y, i_max))) <= 1e-9
+            ok = ok and y_min <= y_max
+            if k == 100:
+                ok = ok and abs(abs(float(y)) - 5.) <= 1e-9 and abs(y_min + 5.) <= 1e-9 and abs(y_max - 5.) <= 1e-9
+    ctx.claim('values_are_entries_at_reported_indices', bool(ok))
+
+
 def h_concrete_func_scales(ctx):
     """Functional variant on rank-1 coefficient tensors with 3-5 coefficients per
     mode (interior critical points) at overall scales 1e3 ... 1e-12: the modulus at
@@ -142,6 +166,16 @@ def h_concrete_func_scales(ctx):
                 fx *= abs(np.polynomial.chebyshev.chebval(xi, c))
                 fmax *= np.max(np.abs(np.polynomial.chebyshev.chebval(xs, c)))
             ok_max = ok_max and fx >= fmax * (1 - 1e-6)
+    # critical points just outside the cube (the maximum over the cube is then at the nearest face)
+    for cs in ([1 + 5e-5, 1.], [-1 - 2e-5, 0.3], [1 + 1e-6, -1 - 1e-6]):
+        A = [np.array([10 - c * c - 0.5, 2 * c, -0.5]).reshape(1, 3, 1) for c in cs]
+        x = teneva.optima_func_tt_beam(A, 3)
+        ok_cube = ok_cube and bool(np.all(np.abs(x) <= 1.))
+        fx, fmax = 1., 1.
+        for G, xi in zip(A, x):
+            fx *= abs(np.polynomial.chebyshev.chebval(min(1., max(-1., xi)), G[0, :, 0]))
+            fmax *= np.max(np.abs(np.polynomial.chebyshev.chebval(xs, G[0, :, 0])))
+        ok_max = ok_max and fx >= fmax * (1 - 1e-6)
     ctx.claim('point_in_cube', bool(ok_cube))
     ctx.claim('maximum_modulus_over_cube', bool(ok_max))
 
@@ -268,6 +302,7 @@ def instances(tier):
         out.append({'func': 'h_beam', 'params': {'n': n, 'r': r, 'k': k, 'fixed_q': fq}, 'opts': G})
     out.append({'func': 'h_concrete_pruned', 'params': {}, 'opts': {'concrete_only': True}})
     out.append({'func': 'h_concrete_func_scales', 'params': {}, 'opts': {'concrete_only': True}})
+    out.append({'func': 'h_concrete_sign_ties', 'params': {}, 'opts': {'concrete_only': True}})
     out.append({'func': 'h_optima_tt_order', 'params': {'n': [2, 2], 'r': 1}, 'opts': {'symbolic_signs': False}})
     out.append({'func': 'h_optima_qtt_values', 'params': {'q': 1}, 'opts': {'symbolic_signs': False}})
     # functional variant, rank-1 coefficient tensors with two Chebyshev coefficients per mode
